@@ -73,7 +73,7 @@ def decode(data: bytes) -> dict:
         case["postponed"] = d.p(0.5)
         case["depth"] = d.i(1, 2)      # subclass of a subclass
     r = d.i(0, 9)
-    case["width"] = d.i(1, 39) if r < 3 else d.i(201, 1000) if r < 5 else d.i(40, 200)
+    case["width"] = d.i(1, 39) if r < 3 else d.i(201, 1000) if r < 5 else d.pick([10 ** 5, 2 ** 31, 10 ** 9]) if r == 5 else d.i(40, 200)
     case["name"] = d.pick([None, None, "P", "my-pool", "x_1"])
     if d.p(0.3):
         case["extra"] = {"foo": d.i(0, 9)}
